@@ -412,14 +412,29 @@ def prog_store(env, case):
                 rrow.append(s * dot(P[p0], P[p1]) - F[e0])
         entries.append(row)
         refs.append(rrow)
+    given = entries
+    if case.get('as_ndarray'):
+        # the matrix is handed over as the caller's own object array (as the library's class files do)
+        import numpy as np
+        given = np.empty((n, n), dtype=object)
+        for i in range(n):
+            for j in range(n):
+                given[i, j] = entries[i][j]
     try:
-        m = PSDMatrix(entries)
+        m = PSDMatrix(given)
     except TypeError:
-        # real behaviour: a matrix made only of Python ints becomes an int64 array and is rejected (raises, which
+        # real behaviour: a matrix made only of plain numbers becomes a numeric numpy array and is rejected (raises, which
         # the property allows: no object with another meaning is produced)
-        env.check(all(type(x) is int for row in entries for x in row),
-                  "PSDMatrix rejected a matrix of Expressions / float scalars", signature="C06:store-rejects")
+        env.check(not any(isinstance(x, Expression) for row in entries for x in row),
+                  "PSDMatrix rejected a matrix that contains Expressions", signature="C06:store-rejects")
         return "store-raised"
+    if case.get('as_ndarray'):
+        # operands are never altered: the caller's array still holds the very objects it held, and what the caller does
+        # with its array afterwards does not change the LMI already built
+        env.check(all(given[i, j] is entries[i][j] for i in range(n) for j in range(n)),
+                  "PSDMatrix construction replaced entries of the caller's array", signature="C06:store-alters-operand")
+        given[0, 0] = e0 + 7
+        given[n - 1, 0] = 3
     env.check(m.shape == (n, n), "PSDMatrix shape differs from the matrix written", signature="C06:store-shape")
     for i in range(n):
         for j in range(n):
@@ -549,6 +564,8 @@ def cases(tier):
                 cs.append(dict(id="ill-%s-%s-%s" % (lhs, op, o), kind='illtyped', lhs=lhs, op=op, odd=o))
     cs.append(dict(id="store-1", kind='store', n=1))
     cs.append(dict(id="store-2", kind='store', n=2))
+    cs.append(dict(id="store-ndarray-1", kind='store', n=1, as_ndarray=True))
+    cs.append(dict(id="store-ndarray-2", kind='store', n=2, as_ndarray=True))
     cs.append(dict(id="add_point", kind='add_point'))
     cs.append(dict(id="dictops-2", kind='dictops', nkeys=2))
     if tier == 'thorough':
